@@ -13,7 +13,7 @@
     different value; [C08_range_refuted] exhibits it on the model, and the repository's own test
     [can_resolve_enum] pins the behaviour (Item0 = -2 on u32), so it is recorded, not repaired. *)
 From Coq Require Import List NArith ZArith Bool String.
-From PyxisModel Require Import Base Grammar SemTypes Registry Sem RustLayout EnumLemmas.
+From PyxisModel Require Import Base Grammar SemTypes Registry Sem RustLayout EnumLemmas WholeBuild.
 Import ListNotations.
 Local Open Scope Z_scope.
 
@@ -69,3 +69,27 @@ Theorem C08_range_refuted :
   in_range false 8 300 = false /\ cast_discr false 8 300 = 44.
 Proof. vm_compute. repeat split; reflexivity. Qed.
 Print Assumptions C08_range_refuted.
+
+(** ** End to end: every enum of an accepted, collision-free build (any schedule) has, in the FINAL
+    registry, the size and alignment of its base type, and the discriminants [values_spec] gives *)
+Theorem C08_whole_build : forall order ptr mods st0 st p it0 gd d it r,
+  input_state ptr mods = Ok st0 -> collision_free (st_reg st0) ->
+  pyxis_resolve order ptr mods = BOk st ->
+  reg_get (st_reg st0) p = Some it0 -> it_state it0 = Unresolved gd -> gi_inner gd = GIEnum d ->
+  reg_get (st_reg st) p = Some it -> it_state it = Resolved r ->
+  exists ed es,
+    rs_inner r = IEnum ed /\
+    size_of (st_reg st) (ed_type ed) = Some (rs_size r) /\
+    align_of (st_reg st) (ed_type ed) = Some (rs_align r) /\
+    all_some (map case_value (ged_stmts d)) = Some es /\
+    ed_fields ed = combine (map ge_name (ged_stmts d)) (values_spec es 0) /\
+    List.length (ed_fields ed) = List.length (ged_stmts d).
+Proof.
+  intros order ptr mods st0 st p it0 gd d it r Hin Hcf Hres Hg0 Hs0 Hty Hg Hs.
+  destruct (whole_build_enum _ _ _ _ _ _ _ _ _ _ _ Hin Hcf Hres Hg0 Hs0 Hty Hg Hs) as (m & _ & Hext & Hb).
+  destruct (enum_build_spec _ _ _ _ Hb) as (ed & es & module & Hi & _ & _ & Hsz & Hal & Hes & Hf & Hl & _).
+  exists ed, es. repeat split; auto.
+  - eapply size_of_ext; eauto.
+  - eapply align_of_ext; eauto.
+Qed.
+Print Assumptions C08_whole_build.
